@@ -47,10 +47,8 @@ func (l *SettableLimit) NotifyOnChange(consumer core.LimitChangeListener) {
 	l.mu.Unlock()
 }
 
-// notifyListeners will call the callbacks on limit changes
+// notifyListeners will call the callbacks on limit changes; the caller holds l.mu
 func (l *SettableLimit) notifyListeners(newLimit int) {
-	l.mu.Lock()
-	defer l.mu.Unlock()
 	for _, listener := range l.listeners {
 		listener(newLimit)
 	}
@@ -64,6 +62,10 @@ func (l *SettableLimit) OnSample(startTime int64, rtt int64, inFlight int, didDr
 
 // SetLimit will update the current limit.
 func (l *SettableLimit) SetLimit(limit int) {
+	// store and notify as one step: with the store outside the lock two concurrent sets could store in one order and
+	// notify in the other, leaving the listeners on a value that is no longer the limit
+	l.mu.Lock()
+	defer l.mu.Unlock()
 	atomic.StoreInt32(&l.limit, int32(limit))
 	l.notifyListeners(limit)
 }
